@@ -276,7 +276,19 @@ def step_problems(st):
                    and all(k.startswith("wf:") and set(k[3:].split(",")) <= {"memory-children-order", "level-order"} for k, _ in viol))
     if merge_order:
         viol = [("merge-appends-memory-children-unordered:wf", viol[0][1])]
-    if st.get("check") != "check ok":
+    # hwloc__reorder_children changed the children chain of an object but nothing was removed, so
+    # topology->modified stayed 0 and hwloc_connect_children was skipped: reproduced by the model on the
+    # chains (model ok), property clauses hold, only the derived pointer fields are stale
+    m_n = re.search(r"nobj=(\d+)->(\d+)", st.get("step", ""))
+    stale = (not merge_order and st.get("model") == "model ok" and st.get("spec") == "spec ok" and viol
+             and m_n is not None and m_n.group(1) == m_n.group(2)
+             and all(k.startswith("wf:") and set(k[3:].split(",")) <= {"children-array", "last-child", "first-child", "level-order", "prev-sibling",
+                                                                      "next-sibling", "sibling-rank"} for k, _ in viol))
+    if stale:
+        viol = [("reorder-without-reconnect:wf", viol[0][1])]
+    if st.get("check") != "check ok" and stale:
+        viol.append(("reorder-without-reconnect:topology_check", str(st.get("check"))))
+    elif st.get("check") != "check ok":
         viol.append(("merge-appends-memory-children-unordered:topology_check" if merge_order else "topology_check-abort", str(st.get("check"))))
     if st.get("api") != "api ok":
         viol.append(("api-accessors-differ-from-dump", str(st.get("api"))))
